@@ -155,7 +155,7 @@ UNIT = Unit("frame", ["base.rs", "tls.rs", "model.rs", "leaf.rs", "lemmas.rs"], 
                 ("C13", "kind", "r is Ok ==> (old(self).rest()[0] == 3 <==> r->Ok_0 is Raw)"),
                 ("C13", "slow-path-payload", "r is Ok && r->Ok_0 is Raw ==> tpkt::frame_len(old(self).rest()) >= 7 && old(self).rest()[6] == 0x80 && r->Ok_0.bytes() =~= old(self).rest().subrange(7, tpkt::frame_len(old(self).rest()))"),
                 ("C13", "fast-path-payload", "r is Ok && r->Ok_0 is FastPath ==> r->Ok_0.bytes() =~= old(self).rest().subrange(tpkt::frame_hdr(old(self).rest()), tpkt::frame_len(old(self).rest())) && r->Ok_0->FastPath_0 == (old(self).rest()[0] >> 6) & 0x3"),
-                ("C13", "frame1", "final(self).written() == old(self).written()"), ("C13", "frame2", "final(self).tls() == old(self).tls()")],
+                ("C13", "frame1", "final(self).written() == old(self).written()"), ("C13", "frame2", "final(self).tls() == old(self).tls()"), ("C13", "frame3", "is_suffix(final(self).rest(), old(self).rest())")],
        pre="let ghost b = self.rest();",
        hints=[(r"x224_header\.read\(&mut payload\)\?;", 1, "proof { reveal_with_fuel(is_static, 3); reveal_with_fuel(same_shape, 3); assert(is_static(x224_header.mv())); }", "before"),
               (r"x224_header\.read\(&mut payload\)\?;", 1, "proof { assert(tpkt::frame_hdr(b) == 4); assert(ser(x224_header.mv()).len() == 3); let f = x224_header.fields(); assert(f[0].1 is U8 && f[1].1 is U8 && f[2].1 == MV::Check(Box::new(MV::U8(0x80)))); assert(ser(x224_header.mv())[2] == 0x80); }")]),
